@@ -224,6 +224,15 @@ def run(rep):
             if call_is(x, "Iterator::count") and _is_set_count(x) and id(x) not in let_counts and not any(id(unblock(y)) == id(x) for y in []):
                 if not any(x is peel(st["init"]) or q.contains(st["init"], x) for blk in walk(f.body) if blk.get("k") == "Block" for st in blk["stmts"] if st["k"] == "Let" and st.get("init") is not None and _is_set_count(st["init"])):
                     cnt_loops += 1
+        # ... or bound to a block that is such a loop and yields its counter (`fold`, an extracted helper)
+        for x in walk(f.body):
+            if x.get("k") == "Block":
+                for s in x["stmts"]:
+                    if s["k"] == "Let" and strip_ref(s["pat"]).get("k") == "Bind" and s.get("init") is not None:
+                        e = unblock(s["init"])
+                        if e.get("k") == "Block" and e.get("expr") is not None and q.var_id(e["expr"]) in counters and len(e["stmts"]) == 2 \
+                                and e["stmts"][0]["k"] == "Let" and strip_ref(e["stmts"][0]["pat"]).get("id") == q.var_id(e["expr"]) and lit(e["stmts"][0].get("init")) == ("i", 0):
+                            counters.add(strip_ref(s["pat"])["id"])
         aho_vars = {s["pat"]["id"] for x in walk(f.body) if x.get("k") == "Block" for s in x["stmts"] if s["k"] == "Let" and s["pat"].get("k") == "Bind" and s.get("init") and call_is(peel(s["init"]), "solver::slow_aho")}
         rep.check(cnt_loops >= 1, "T-COUNT", "T-COUNT/%s/regexset-counter" % fname.split("::")[-1], f.sp, "the regex-set count is one per matching pattern (a unit counter over set.matches(x).iter(), or iter().count())", str(cnt_loops))
         site_nodes = []
